@@ -59,7 +59,9 @@ HARNESS_TSAN = {
     "libs": [],
     "tsan": True,
 }
-EXTRA_HARNESSES = [HARNESS_TSAN]
+# the third harness: k <= 3 threads, a handful of operations, every order of them (forced by a relaxed turn counter, or released together)
+HARNESS_SCHED = dict(HARNESS_TSAN, src="harness/c19_sched.cpp")
+EXTRA_HARNESSES = [HARNESS_TSAN, HARNESS_SCHED]
 
 TIE = ("hand-written model (FcpptModel/Model/C19.lean) mirroring context.cpp / context_tree_node.cpp / find_or_create_child.cpp / "
        "object.cpp / level_stream.cpp / chain.cpp / tree_formatter.cpp + differential correspondence of whole operation histories "
@@ -139,6 +141,206 @@ def extra_checks(binp, rng, tier, ev):
     cov["violating_runs"] = sum(1 for l in lines if l is not None and not l.startswith("ok ") and l != "NOT-RUN")
     ev["coverage"]["tsan"] = cov
     ev["coverage"]["generator_op_mix"] = dict(GEN_STATS)
+    viol += sched_checks(thorough, ev)
+    return viol
+
+
+# ---- small-scope schedule exploration (harness/c19_sched.cpp) ---------------------------------------------------
+def interleavings(progs):
+    """all merges of the per-thread programs (lists) that keep each program's order; items are (tid, op)"""
+    if all(not p for p in progs):
+        return [[]]
+    out = []
+    for t, p in enumerate(progs):
+        if p:
+            rest = [q if i != t else q[1:] for i, q in enumerate(progs)]
+            out += [[(t, p[0])] + w for w in interleavings(rest)]
+    return out
+
+def is_ctor(op):
+    return op.startswith("obj")
+
+def static_ids(setup, progs, post):
+    """static object index of every creating operation: setup, then the threads' programs in thread order, then post"""
+    ids, n = {}, 0
+    for key, ops in [("s", setup)] + [(t, p) for t, p in enumerate(progs)] + [("p", post)]:
+        for i, op in enumerate(ops):
+            if is_ctor(op):
+                ids[(key, i)] = n
+                n += 1
+    return ids
+
+def driver_history(root, setup, seq, post, locs, ids_of):
+    """the sequential history for the Lean driver for one order `seq` = [(tid, index in program, op)];
+    returns (lines, extractors): extractor(result line) -> the harness' text for that step"""
+    lines = ["reset", f"ctx {root} D"]
+    ex = [None, None]
+    gid = {}          # static id -> driver id (creation order of THIS history)
+    def tr(key, i, op):
+        t = op.split(",")
+        if t[0] in ("objr", "objl"):
+            gid[ids_of[(key, i)]] = len(gid)
+            return " ".join(t), (lambda r: "ok" if r.startswith("obj=") else r)
+        if t[0] == "objc":
+            line = f"objc {gid[int(t[1])]} {t[2]} {t[3]}"
+            gid[ids_of[(key, i)]] = len(gid)
+            return line, (lambda r: "ok" if r.startswith("obj=") else r)
+        if t[0] == "lvl":
+            return f"lvl {gid[int(t[1])]}", (lambda r: r.split()[0])
+        if t[0] == "en":
+            k = int(t[2])
+            return f"lvl {gid[int(t[1])]}", (lambda r: "en=" + r.split()[1][3:][k] if r.startswith("lvl=") else r)
+        if t[0] in ("log", "logm"):
+            return f"{t[0]} {gid[int(t[1])]} {t[2]} {t[3]}", (lambda r: r.replace(" ", "\\s"))
+        return " ".join(t), (lambda r: r)
+    for i, op in enumerate(setup):
+        l, e = tr("s", i, op); lines.append(l); ex.append(None)
+    step_pos = {}
+    for (tid, i, op) in seq:
+        l, e = tr(tid, i, op); step_pos[(tid, i)] = len(lines); lines.append(l); ex.append(e)
+    post_pos = []
+    for i, op in enumerate(post):
+        l, e = tr("p", i, op); post_pos.append(len(lines)); lines.append(l); ex.append(e)
+    fin = len(lines)
+    lines += [f"get {l}" for l in locs]
+    ex += [None] * len(locs)
+    return lines, ex, step_pos, post_pos, fin
+
+def joint(results, off, ex, order, step_pos, post_pos, fin, nloc):
+    """joint result text in the harness' format; `order` = [(tid, i)] in the order the line lists the steps; `off` = where this
+    history starts in the driver's results"""
+    steps = "@".join(ex[step_pos[k]](results[off + step_pos[k]]) for k in order)
+    post = "@".join(ex[p](results[off + p]) for p in post_pos)
+    final = ",".join(r[4:] if r.startswith("lvl=") else r for r in results[off + fin:off + fin + nloc])
+    return f"{steps}!{post}!{final}"
+
+
+SWEEP = ["-", "a", "b", "a.a", "a.b", "b.a", "a.b.a"]
+SETUPS = [[], ["objl,a,b,-"], ["set,a,1", "objr,a,F"]]
+COMMON = ["set,-,1", "set,-,-", "set,a,1", "set,a,-", "set,a.b,4", "set,b,1",
+          "get,-", "get,a", "get,a.b", "get,a.b.a", "get,b",
+          "objr,a,-", "objr,b,F", "objl,a,b,-", "objl,a.b,a,F", "objl,b,a,-"]
+COMMON_SMALL = ["set,a,1", "set,-,-", "get,a.b", "objr,a,-", "objl,a,b,-"]
+
+def owner_ops(tid, small=False):
+    """operations on object 0 (created by main in the setup, handed to this thread)"""
+    ops = ["lvl,0", f"log,0,{tid},m"] if small else ["lvl,0", "en,0,3", f"log,0,{tid},m", f"logm,0,{tid + 3},m", "objc,0,a,-"]
+    return ops
+
+def post_ops(nobj_static):
+    look = [f"lvl,{i}" for i in range(nobj_static)]
+    return look + ["set,a,2"] + look + ["set,b,5"] + look + ["set,a.b,0"] + look
+
+def scenarios(thorough):
+    """(kind, setup, progs, post): kind 'single' = one operation per thread (forced in every order and released), 'multi' =
+    two operations per thread (forced in every interleaving)"""
+    out = []
+    for setup in SETUPS:
+        has_obj = any(is_ctor(o) for o in setup)
+        a0 = COMMON + (owner_ops(0) if has_obj else [])
+        for x in a0:
+            for y in COMMON:
+                out.append(("single", setup, [[x], [y]]))
+        small0 = COMMON_SMALL + (owner_ops(0, True) if has_obj else [])
+        t0, t12 = (a0, COMMON) if thorough else (small0, COMMON_SMALL)
+        for x in t0:
+            for y in t12:
+                for z in t12:
+                    out.append(("single", setup, [[x], [y], [z]]))
+        # two steps per thread: the second step of a thread uses what its first one made (# = its own object)
+        n0 = sum(1 for o in setup if is_ctor(o))
+        p0 = [["objr,a,-", "lvl,#"], ["objl,a,b,F", "log,#,0,m"], ["objl,a.b,a,-", "en,#,3"], ["get,a.b", "get,a"], ["set,a,1", "get,a.b"], ["set,a.b,-", "set,a,4"]]
+        if has_obj:
+            p0 += [["lvl,0", "lvl,0"], ["log,0,0,m", "lvl,0"], ["objc,0,b,-", "lvl,#"]]
+        p1 = [["set,a,1", "set,a.b,-"], ["set,-,-", "set,a,4"], ["objr,a,F", "logm,#,1,m"], ["objl,a,b,-", "en,#,1"], ["get,a", "set,a,1"], ["set,a,-", "get,a.b.a"], ["objl,a,b,G", "lvl,#"]]
+        for x in p0:
+            for y in p1:
+                # static ids: setup objects, then thread 0's, then thread 1's
+                c0 = sum(1 for o in x if is_ctor(o))
+                xs = [o.replace("#", str(n0)) for o in x]
+                ys = [o.replace("#", str(n0 + c0)) for o in y]
+                out.append(("multi", setup, [xs, ys]))
+    return out
+
+def plan(thorough, repeat):
+    """-> (sched lines, driver ops, checks); a check = (line index, [ (driver offset, ex, order, step_pos, post_pos, fin) per allowed order ])"""
+    lines, dops, checks = [], [], []
+    for kind, setup, progs in scenarios(thorough):
+        ids = static_ids(setup, progs, [])
+        nstatic = len(ids)
+        post = post_ops(nstatic)
+        ids = static_ids(setup, progs, post)
+        listed = [(t, i) for t, p in enumerate(progs) for i in range(len(p))]          # thread order
+        tagged = [[(t, i, op) for i, op in enumerate(p)] for t, p in enumerate(progs)]
+        allowed = []
+        for seq in interleavings(tagged):
+            seq = [x[1] for x in seq]                                                     # (tid, i, op)
+            hist, ex, step_pos, post_pos, fin = driver_history("3", setup, seq, post, SWEEP, ids)
+            entry = (len(dops), ex, step_pos, post_pos, fin)
+            dops += hist
+            allowed.append(entry)
+            # forced: this very order
+            steps = ";".join(f"{t}:{op}" for (t, i, op) in seq)
+            lines.append(f"sched f 1 3 {';'.join(setup) or '-'} {steps} {';'.join(post)} {','.join(SWEEP)}")
+            checks.append((len(lines) - 1, [(t, i) for (t, i, op) in seq], [entry]))
+        # the macros are `if (enabled) log`: two loads, not one atomic step - forced orders only
+        if kind == "single" and not any(p[0].startswith("logm,") for p in progs):
+            steps = ";".join(f"{t}:{p[0]}" for t, p in enumerate(progs))
+            lines.append(f"sched r {repeat} 3 {';'.join(setup) or '-'} {steps} {';'.join(post)} {','.join(SWEEP)}")
+            checks.append((len(lines) - 1, listed, allowed))
+    return lines, dops, checks
+
+def verdicts(lines, out, dres, checks):
+    """compare; returns list of (line, observed, allowed texts)"""
+    bad = []
+    for li, order, allowed in checks:
+        texts = []
+        for off, ex, step_pos, post_pos, fin in allowed:
+            texts.append(joint(dres, off, ex, order, step_pos, post_pos, fin, len(SWEEP)))
+        o = out[li]
+        if o is None or not o.startswith("ok "):
+            bad.append((lines[li], o, texts)); continue
+        for got in o[3:].split("#"):
+            if got not in texts:
+                bad.append((lines[li], got, texts)); break
+    return bad
+
+
+def sched_checks(thorough, ev):
+    """Every order of k <= 3 operations on one context, executed by k threads: forced (exact comparison with the sequential
+    model of that order, ThreadSanitizer sees only the library's own synchronisation) and released together (the joint result
+    must be the joint result of one of the k! orders)."""
+    import sys
+    import time
+    from vlib import harness as hb
+    from vlib.runner import run_driver, run_harness
+    t0 = time.time()
+    sbin, info = hb.build(HARNESS_SCHED)
+    if sbin is None:
+        return [{"kind": "broken-correspondence", "what": "schedule harness does not build against /repo: " + str(info.get("error", ""))[-1500:]}]
+    lines, dops, checks = plan(thorough, 40 if thorough else 8)
+    dres = run_driver(sys.modules[__name__], dops, history=True)
+    out, deaths = run_harness(sbin, lines, history=False, parts=8)
+    viol = []
+    bad = verdicts(lines, out, dres, checks)
+    for line, got, allowed in bad:
+        if got == "NOT-RUN":
+            continue
+        if len(viol) < 3:
+            mode = "forced order" if line.split()[1] == "f" else "released together"
+            viol.append({"kind": "input", "batch": "sched-orders", "batch_kind": "stateless", "ops": [line],
+                         "expected": ["ok " + " | ".join(allowed[:6])], "observed": [str(got)],
+                         "what": (f"{mode}: the joint result is not the sequential model's result for "
+                                  + ("this order" if mode == "forced order" else "any order of the steps")
+                                  + f", or ThreadSanitizer reported a race: {str(got)[:300]} -- rerun: echo '{line}' | "
+                                  f"TSAN_OPTIONS=exitcode=96:halt_on_error=1 {sbin}")})
+    forced = sum(1 for l in lines if l.split()[1] == "f")
+    ev["coverage"]["sched"] = {
+        "lines": len(lines), "forced_orders": forced, "released_scenarios": len(lines) - forced,
+        "released_rounds": (len(lines) - forced) * (40 if thorough else 8),
+        "released_with_several_joint_results": sum(1 for l, o in zip(lines, out) if l.split()[1] == "r" and o and o.startswith("ok ") and "#" in o),
+        "driver_lines": len(dops), "deaths": len(deaths), "disagreeing": len([b for b in bad if b[1] != "NOT-RUN"]),
+        "seconds": round(time.time() - t0, 1), "harness": {k: info.get(k) for k in ("cached", "key", "seconds")}}
     return viol
 
 
@@ -184,8 +386,15 @@ def loc_str(loc):
     return ".".join(loc) if loc else "-"
 
 
+# names that are related to each other: prefix, suffix, same first / last character, different case (a lookup that compares
+# less than the whole name finds the wrong child)
+RELATED_NAMES = ["ab", "aa", "ba", "A", "abc"]
+
+
 def rand_name(r):
-    return "_" if r.chance(3, 100) else r.choice(NAMES)
+    if r.chance(3, 100):
+        return "_"
+    return r.choice(RELATED_NAMES) if r.chance(1, 8) else r.choice(NAMES)
 
 
 def rand_level(r):
@@ -515,6 +724,7 @@ FULL = alphabet(AB, 3, ["1", "3", "-"])               # 45 sets + 2 + 14 + 4 = 6
 MID = alphabet(AB, 2, ["1", "3", "-"])                # 21 sets + 2 + 6 + 4 = 33 operations
 SMALL = alphabet(AB, 2, ["1", "-"])                   # 14 sets + 2 + 6 + 4 = 26 operations
 EMPTY = alphabet(["a", "_"], 2, ["1", "-"])           # the same with the empty name in place of b (tree_formatter skips it)
+PREFIX = alphabet(["a", "ab"], 2, ["1", "-"])         # a name that is a proper prefix of the other one
 
 
 def small_history_lines(rng, thorough):
@@ -532,6 +742,7 @@ def small_history_lines(rng, thorough):
     for root, cfg in (("-", "N"), ("1", "M")):
         out += enum_lines(3, 1, "e", root, cfg, SMALL, OBS2)
     out += enum_lines(3, 1, "e", "3", "D", EMPTY, paths(["a", "_"], 2) + [["a", "_", "a"], ["_", "_", "_"]])
+    out += enum_lines(3, 1, "e", "3", "D", PREFIX, paths(["a", "ab"], 2) + [["ab", "a", "ab"], ["a", "ab", "a"], ["b"], ["abc"], ["a", "b"]])
     r = rng.fork("enum-sample")
     if thorough:
         out += enum_lines(3, 2, "f", "3", "M", FULL, OBS3)
@@ -612,7 +823,7 @@ def object_api_case(r):
             ops.append(f"fmt {i} t")
             ops.append(f"lvl {i}")
             k = r.below(6)
-            ops += [f"logm {i} {k} m", f"log {i} {k} m", f"logp {i} {k} p {'q' * r.below(11)}", f"sink {i} {k} {rand_fmtx(r)} m"]
+            ops += [f"logm {i} {k} m", f"log {i} {k} m", f"logp {i} {k} p {'q' * r.below(11)}x", f"sink {i} {k} {rand_fmtx(r)} m"]
         ops.append(f"cstr {r.below(6)} {rand_fmtx(r)} m")
         ops.append(f"del {victim}")
         alive.remove(victim)
@@ -642,7 +853,7 @@ def batches(rng, tier):
                      "levels 1,3,-; objr; objl; objc on the first two objects) on a context with root warning, observed after every step "
                      "(get of all 15 locations, level/enabled of every object, one log or FCPPT_LOG_* per object); the same observed only at "
                      "the end; every history of exactly 4 operations over the depth-2 alphabet (33 operations); root - / 1 and stream "
-                     "configurations N / M over the 26-operation alphabet; the alphabet with the empty name; quick: 1/64 of the 4-operation "
+                     "configurations N / M over the 26-operation alphabet; the alphabets with the empty name and with the names a, ab; quick: 1/64 of the 4-operation "
                      "histories over the full alphabet (thorough: all, plus all 5-operation histories over the 26-operation alphabet)")
     yield mks("api-exhaustive", api_lines(),
               "level_from_string / level_to_string / operator<< / operator>> on every name and near-miss; every location program of "
